@@ -68,6 +68,16 @@ def codes(ctx):
     out.append(("ldpc_small", LDPCCodeEncoder(check_matrix=torch.tensor([[1, 1, 0, 1, 0, 0], [0, 1, 1, 0, 1, 0], [1, 0, 1, 0, 0, 1]], dtype=torch.float32)), False))
     if ctx.thorough:
         out.append(("hamming4", E.HammingCodeEncoder(4), False))
+    # chain-shaped trees whose check degrees alternate (3,2,3 / 2,3,2,3 / 3,2,2,3 / 4,2,3,2,4): equal-degree checks that are NOT adjacent
+    for tag, degs in (("c323", (3, 2, 3)), ("c2323", (2, 3, 2, 3)), ("c3223", (3, 2, 2, 3)), ("c42324", (4, 2, 3, 2, 4))):
+        n = sum(degs) - (len(degs) - 1)
+        H = [[0] * n for _ in degs]
+        pos = 0
+        for r, d in enumerate(degs):
+            for j in range(pos, pos + d):
+                H[r][j] = 1
+            pos += d - 1                       # consecutive checks share exactly one variable: a path, hence cycle-free
+        out.append(("chain_" + tag, LDPCCodeEncoder(check_matrix=torch.tensor(H, dtype=torch.float32)), True))
     for i in range(3 if ctx.thorough else 2):
         H = tree_check_matrix(rng, rng.randint(6, 12))
         try:
